@@ -6,3 +6,5 @@ Definition SOURCE_PRIORITY_DEFAULT : N := 100.
 Definition SOURCE_PRIORITY_MAX : N := 200.
 Definition PRIORITY_MODE_INHERIT : N := 0.
 Definition PRIORITY_MODE_STATIC : N := 1.
+Definition U8_LIMIT : N := 256.
+Definition UINT_LIMIT : N := 4294967296.
